@@ -319,3 +319,16 @@ def inverse(w, seed, spec):
         if not close(v, ref) or not close(d * v * d, d) or not close(v * d * v, v):
             fails.append(f'inverse values of {d.tolist()} are {v.tolist()}: not the Moore-Penrose inverse entries')
     return fails
+
+
+def _guard(fn):
+    def run(w, seed, spec):
+        try:
+            return fn(w, seed, spec)
+        except Exception as e:          # noqa: BLE001  an exception of the code under test is a failure of the property
+            return [f'{fn.__name__}: the operator raises {type(e).__name__}: {e}'[:300]]
+    run.__name__ = fn.__name__
+    return run
+
+
+mv, constructor, axes, strict, as_matrix, inverse = (_guard(f) for f in (mv, constructor, axes, strict, as_matrix, inverse))
